@@ -11,7 +11,8 @@ import os, re, json, random
 import vlib, proj
 from vlib import Verdict, run_tlc, vh, read_ndjson, write_ndjson, sample
 
-ORDER = ["G1", "C1", "GR", "C2", "GA", "GC", "CC", "GT", "CT", "GN", "Q", "QR", "C1b", "C0", "CA"]
+ORDER = ["G1", "C1", "GR", "C2", "GA", "GC", "CC", "GT", "CT", "GN", "Q", "QR", "C1b", "C0", "CN1", "CN2", "CA"]
+SUGAR_CONSTRAINTS = {"CN1", "CN2"}
 SUGAR = {"GT", "GN"}
 
 
@@ -51,6 +52,10 @@ def render(case, k):
             stmts.append((it, "s2 + in1 ==> w;", []))
         elif it == "C0":
             stmts.append((it, "in1 * 2 === in2 + in2;", []))
+        elif it == "CN1":
+            stmts.append((it, "zz1 <== Sub2()(s1, in2);", []))
+        elif it == "CN2":
+            stmts.append((it, "zz2 <== Sub2()(in1, s1);", []))
         elif it == "GA":
             continue
         elif it == "CA":
@@ -60,7 +65,7 @@ def render(case, k):
     head += "template Sub() {\n  signal input x;\n  signal output o;\n  o <== x;\n}\n"
     head += "template Sub2() {\n  signal input p;\n  signal input q;\n  signal output o;\n  o <== p * q;\n}\n"
     head += "template %sT(n) {\n  signal input in1;\n  signal input in2;\n  signal output s1;\n  signal output s2;\n  signal sa[2];\n" % ("custom " if custom else "")
-    head += "  signal t1;\n  signal t2;\n  signal u;\n  signal w;\n  signal z;\n  component c = Sub();\n"
+    head += "  signal t1;\n  signal t2;\n  signal u;\n  signal w;\n  signal z;\n  signal zz1;\n  signal zz2;\n  component c = Sub();\n"
     text = head
     nest = case["nest"]
     ind = "  "
@@ -184,9 +189,11 @@ def run(tier):
                 secs = set()
                 for sl in r["secondary"]:
                     o = [ci for ci, (s, e) in spans.items() if (s, e) == (sl["s"], sl["e"])]
+                    if not o:       # a constraint generated for an input of an anonymous call is located at the call, inside its statement
+                        o = [ci for ci, (s, e) in spans.items() if ci in SUGAR_CONSTRAINTS and s <= sl["s"] and sl["e"] <= e + 1]
                     secs.add(o[0] if len(o) == 1 else "?%d-%d" % (sl["s"], sl["e"]))
                 want = set(exp[hit[0]]["secondaries"])
-                if secs != want or len(r["secondary"]) != len(want):
+                if secs != want:
                     bad = ("assign:secondary locations are not the constraint statements mentioning the signal",
                            {"item": it, "signal": sig, "expected": sorted(want), "reported": sorted(secs)})
                     break
